@@ -278,11 +278,7 @@ func compareShapeField(sf *shapeFindings, ver int16, path string, k, r shapeFiel
 
 // knownShape: findings of TestCrossShapes, triaged in DISAGREEMENTS.md.
 var knownShape = map[string]string{
-	// DISAGREEMENTS.md #5: field order of the Heartbeat / LeaveGroup responses
-	"Heartbeat.res.ErrorCode: kind differs: kafka-go int16, refcodec throttle_time_ms int32":  "v1-v4",
-	"Heartbeat.res.ThrottleTimeMs: kind differs: kafka-go int32, refcodec error_code int16":   "v1-v4",
-	"LeaveGroup.res.ErrorCode: kind differs: kafka-go int16, refcodec throttle_time_ms int32": "v1-v4",
-	"LeaveGroup.res.ThrottleTimeMS: kind differs: kafka-go int32, refcodec error_code int16":  "v1-v4",
+	// (DISAGREEMENTS.md #5, Heartbeat / LeaveGroup response field order, was repaired in kafka-go)
 	// #1, #2, #3: kafka-go can write a null where Kafka does not allow one
 	"Metadata.req.TopicNames: nullability differs: kafka-go true, Kafka false": "v0 (array), v0-v8 (elements)",
 	"OffsetFetch.req.Topics: nullability differs: kafka-go true, Kafka false":  "v0-v1",
